@@ -69,6 +69,17 @@ def check(rep, tier, seed):
         for ext in [magic_, magic_ + b"\x01\x00", magic_ + b"\x01\x00\x76\x00{'descr", b, blobs[0][1], b[:len(b) // 2], txt_, b"#SHAPE", b"\n" + txt_]:
             cases.append("npyr %s" % (b + ext).hex()); labels.append((lab, "spectrum-like-extension +%d" % len(ext)))
             cases.append("read %s" % (b + ext).hex()); labels.append((lab, "spectrum-like-extension +%d (detecting reader)" % len(ext)))
+    # the header-length field itself damaged: zero, too small, too large, in the 2-byte (version 1) and 4-byte (2, 3) forms
+    for lab, b in blobs[:3]:
+        if b[6] == 1:
+            hl = int.from_bytes(b[8:10], "little")
+            for major, width in ((1, 2), (2, 4), (3, 4)):
+                for v in (0, 1, 2, 9, hl - 1, hl + 1, hl + 8, len(b), 256 ** width - 1):
+                    head = b"\x93NUMPY" + bytes([major, 0]) + v.to_bytes(width, "little")
+                    for data in (head + b[10:], head, head + b[10:10 + v]):
+                        if not (major == 1 and v == hl and data == b):
+                            cases.append("npyr %s" % data.hex()); labels.append((lab, "header-length v%d = %d" % (major, v)))
+                            cases.append("read %s" % data.hex()); labels.append((lab, "header-length v%d = %d (detecting reader)" % (major, v)))
     mo, outs = compare_cases(rep, "npy-damage", cases, nontrivial=lambda c, m: True,
                              classify=lambda c, m, i: "damage:model-vs-impl", spec=True, both_builds=(tier == "thorough"))
     uniq = list(dict.fromkeys(cases)); pos = {c: k for k, c in enumerate(uniq)}
@@ -184,6 +195,41 @@ def check(rep, tier, seed):
             rep.fail(kind="property-oracle", cls="damage:binary-accepted", case=lab, argv=["sfs"] + job[0], stdin_hex=job[1].hex()[:3000],
                      observed={"rc": rc, "stdout": so[:200].decode(errors="replace")}, expected="non-zero exit, empty stdout",
                      detail="the binary accepted or partially processed a damaged file")
+    # the way the bytes arrive is no excuse: standard input handed down in NON-BLOCKING mode (as some wrappers do), the valid
+    # part of a damaged file first and the damage a moment later - 'no bytes right now' is not the end of the input, so the
+    # run must fail (because of the damage or because of the would-block error), never print the spectrum of the first part
+    import subprocess, time as _t
+    from concurrent.futures import ThreadPoolExecutor
+    from common import sfs_path, ENV
+    def run_nonblocking(job):
+        argv, part1, part2 = job
+        r, w = os.pipe()
+        os.set_blocking(r, False)
+        p = subprocess.Popen([sfs_path(False)] + argv, stdin=r, stdout=subprocess.PIPE, stderr=subprocess.PIPE, env=ENV)
+        os.close(r)
+        try:
+            os.write(w, part1); _t.sleep(0.4); os.write(w, part2)
+        except OSError:
+            pass
+        os.close(w)
+        try:
+            so, se = p.communicate(timeout=60)
+        except subprocess.TimeoutExpired:
+            p.kill(); so, se = p.communicate()
+        return p.returncode, so, se
+    good_t = text_spectrum([2, 3], ["1", "2", "3", "4", "5", "6.5"])
+    good_n = blobs[0][1]
+    nbj = []
+    for argv in (["view"], ["fold"], ["stat", "-s", "sum"]):
+        nbj += [(argv, good_t, b"7\n"), (argv, good_t, good_t), (argv, good_n, b"\x00" * 8), (argv, good_n, good_n), (argv, good_n[:-3], b"\x00\x00\x00\x00")]
+    with ThreadPoolExecutor(max_workers=8) as ex:
+        nbres = list(ex.map(run_nonblocking, nbj))
+    for (argv, p1, p2), (rc, so, se) in zip(nbj, nbres):
+        rep.count("binary-rejects:non-blocking-stdin", "%s, %d + %d bytes" % (argv[0], len(p1), len(p2)), True)
+        if rc == 0 or so != b"":
+            rep.fail(kind="property-oracle", cls="damage:accepted-on-non-blocking-stdin", case="%s: a valid spectrum, then (0.4 s later) %d more bytes, on a non-blocking stdin" % (argv[0], len(p2)),
+                     argv=["sfs"] + argv, stdin_hex=(p1 + p2).hex()[:3000], observed={"rc": rc, "stdout": so[:200].decode(errors="replace"), "stderr": se[-200:].decode(errors="replace")},
+                     expected="non-zero exit, empty stdout", detail="a damaged file delivered in two bursts over a non-blocking standard input was read as the spectrum of its first part")
     rep.assumptions += ["npy cases: shape products below 2^64; text cases include declared shapes whose product overflows (both builds)"]
 
 
